@@ -118,6 +118,9 @@ func (s *fakeSink) Write(p []byte) (int, error) {
 }
 
 func (s *fakeSink) Flush() {
+	if s.heads == 0 {
+		s.WriteHeader(http.StatusOK) // like net/http: flushing sends the head, with 200 if none was written
+	}
 	s.flushes = append(s.flushes, len(s.body))
 }
 
